@@ -157,10 +157,98 @@ def s16_extraction(ctx):
     return res
 
 
-STREAMS = [s16_validation, s16_extraction]
+def run_multiarea_case(arg):
+    traces, area_wkts, t, stub = arg
+    import_fractopo()
+    if stub:
+        install_stub()
+    import geopandas as gpd
+    from shapely import wkt
+    from shapely.geometry import LineString
+
+    from fractopo.branches_and_nodes import branches_and_nodes
+    from fractopo.general import crop_to_target_areas, determine_boundary_intersecting_lines
+
+    tr = gpd.GeoDataFrame(geometry=[LineString(l) for l in traces])
+    ar = gpd.GeoDataFrame(geometry=[wkt.loads(w) for w in area_wkts])
+    try:
+        a, b = determine_boundary_intersecting_lines(tr, ar, t)
+        cropped = crop_to_target_areas(tr, ar, keep_column_data=True)
+        br, nd = branches_and_nodes(tr, ar, t, already_clipped=False)
+        return {
+            "boundary_intersecting": [bool(x) for x in a], "boundary_cuts_through": [bool(x) for x in b],
+            "crop": sorted(g.wkt for g in cropped.geometry.values),
+            "nodes": sorted((round(p.x, 9), round(p.y, 9), c) for p, c in zip(nd.geometry.values, nd["Class"].values)),
+            "branches": sorted((c, g.wkt) for g, c in zip(br.geometry.values, br["Connection"].values)),
+        }
+    except Exception as e:
+        return f"{type(e).__name__}: {str(e)[:160]}"
+
+
+def s16_multiarea(ctx):
+    res = StreamResult("S16-multiarea", rule="area frames of 2..3 rows (disjoint boxes / circles, incl. rows with NO trace anywhere near them, in every row position) with traces "
+                       "ending on, crossing and lying inside the boundaries: determine_boundary_intersecting_lines, crop_to_target_areas and branches_and_nodes with the real index "
+                       "vs an index answering everything; non-trivial = some trace meets a boundary and some row has an empty candidate window")
+    from shapely.geometry import Point, box
+
+    rng = rng_for(ctx.seed, "S16m")
+    t = 0.01
+    args, cases = [], []
+    for _ in range(budget(ctx.tier, 40, 600)):
+        rows = []
+        centres = [(0.0, 0.0), (40.0, 5.0), (-30.0, 45.0)]
+        rng.shuffle(centres)
+        k = rng.randint(2, 3)
+        shapes = []
+        for cx, cy in centres[:k]:
+            if rng.random() < 0.5:
+                shapes.append(box(cx - 8.0, cy - 8.0, cx + 8.0, cy + 8.0))
+            else:
+                shapes.append(Point(cx, cy).buffer(8.0))
+        mapped = [rng.random() < 0.6 for _ in shapes]
+        if not any(mapped):
+            mapped[rng.randrange(len(mapped))] = True
+        traces = []
+        for (cx, cy), m_ in zip(centres[:k], mapped):
+            if not m_:
+                continue
+            for _ in range(rng.randint(1, 4)):
+                kind = rng.choice(["inside", "cross", "through"])
+                y = cy + rng.randint(-20, 20) / 4
+                if kind == "inside":
+                    traces.append([(cx - rng.randint(4, 20) / 4, y), (cx + rng.randint(4, 20) / 4, y + rng.randint(-4, 4) / 4)])
+                elif kind == "cross":
+                    traces.append([(cx + rng.randint(-8, 8) / 4, y), (cx + 12.0, y + rng.randint(-4, 4) / 4)])
+                else:
+                    traces.append([(cx - 12.0, y), (cx + 12.0, y + rng.randint(-8, 8) / 4)])
+        cases.append((traces, [g.wkt for g in shapes], mapped))
+        for s_ in (False, True):
+            args.append((traces, [g.wkt for g in shapes], t, s_))
+    with mp.get_context("fork").Pool(16, maxtasksperchild=8) as pool:
+        outs = pool.map(run_multiarea_case, args, chunksize=1)
+    for i, (traces, wkts, mapped) in enumerate(cases):
+        real, stub = outs[2 * i], outs[2 * i + 1]
+        res.evaluations += 1
+        if isinstance(real, dict) and any(real["boundary_intersecting"]) and not all(mapped):
+            res.nontrivial += 1
+        res.distribution["rows=%d empty_rows=%d" % (len(mapped), mapped.count(False))] = res.distribution.get("rows=%d empty_rows=%d" % (len(mapped), mapped.count(False)), 0) + 1
+        if real != stub:
+            diff = [k_ for k_ in real if real[k_] != stub[k_]] if isinstance(real, dict) and isinstance(stub, dict) else "raised"
+            res.disagreements.append(Disagreement("S16-multiarea", {"stream": "S16-multiarea", "traces": traces, "area_wkts": wkts, "t": t},
+                                                  stub if isinstance(stub, str) else {k_: stub[k_] for k_ in diff}, real if isinstance(real, str) else {k_: real[k_] for k_ in diff}, True,
+                                                  f"results differ between the spatial index and all-pairs candidates: {diff}"))
+    res.samples = [{"traces": cases[0][0][:3], "areas": len(cases[0][1])}]
+    return res
+
+
+STREAMS = [s16_validation, s16_extraction, s16_multiarea]
 
 
 def replay(ctx, stream, case):
+    if stream == "S16-multiarea":
+        with mp.get_context("fork").Pool(2, maxtasksperchild=1) as pool:
+            real, stub = pool.map(run_multiarea_case, [(case["traces"], case["area_wkts"], case["t"], s_) for s_ in (False, True)], chunksize=1)
+        return None if real == stub else Disagreement(stream, case, stub, real, True, "results differ")
     if stream == "S16-validation":
         with mp.get_context("fork").Pool(2, maxtasksperchild=1) as pool:
             real, stub = pool.map(run_validation_case, [(case["wkt"], False, case.get("t", T)), (case["wkt"], True, case.get("t", T))], chunksize=1)
